@@ -31,10 +31,23 @@ CODE = re.compile(r"\[([EL]\d+)\]")
 
 
 # ------------------------------------------------------------ executions --
+DISTURBED = [0]     # runs repeated because the backend was killed from outside (per worker process)
+
+
 def penne_run(wd, files_in_order, entropy, extra_args=(), env_extra=None, sub="run"):
     env = sim_env(base_env(env_extra), entropy=entropy)
     argv = [PENNE, sub, "--color=never", "--arrows=ascii"] + list(extra_args) + list(files_in_order)
-    return run_proc(argv, wd, env)
+    r = run_proc(argv, wd, env)
+    if r.rc == 1 and b"Error: no exitcode" in r.err:
+        # lli was killed by a signal that is not its own crash (SIGKILL / SIGTERM: somebody's `pkill lli`,
+        # the OOM killer). Everything the run depends on is owned by the simulator, so the same run again
+        # must end the same way; if it does, that is the verdict - if it does not, the first one was
+        # disturbed from outside the simulated world and is not a statement about penne.
+        r2 = run_proc(argv, wd, env)
+        if not (r2.rc == 1 and b"Error: no exitcode" in r2.err):
+            DISTURBED[0] += 1
+            return r2
+    return r
 
 
 def parse_run(r):
@@ -792,6 +805,8 @@ def run_program(args):
         for cls, detail in v:
             res["violations"].append({"class": cls, "detail": detail, "kind": "history", "history": h})
     shutil.rmtree(wd_root, ignore_errors=True)
+    stats["disturbed_runs"] = DISTURBED[0]
+    DISTURBED[0] = 0
     return res
 
 
@@ -1006,6 +1021,7 @@ def run(tier, seed):
         "cli_runs": stats.get("runs", 0),
         "llvm_as_checks": stats.get("llvm_as", 0),
         "real_clang_builds_executed": stats.get("real_builds", 0),
+        "runs_repeated_after_the_backend_was_killed_from_outside": stats.get("disturbed_runs", 0),
         "hygiene_templates": len(HYGIENE_TEMPLATES),
         "hygiene_template_runs": template_runs,
         "runs_per_hour": rate_per_hour(runs, wall),
